@@ -77,7 +77,7 @@ fn mapper_matrix(nr: usize, nl: usize) {
     core::mem::forget(conn);
 }
 
-//@ c06_mapper_matrix_3x3 {"desc":"from_iter accepts exactly permutation pairs (0, duplicates, out-of-range rejected) and the matrix connector keeps cost(map r, map l) = cost(r, l)","bounds":"3 right ids x 3 left ids; all u16^2 x u16^2 mapping vectors","symbolic":"both mapping vectors (valid and invalid), all matrix cells","functions":["ConnIdMapper::from_iter","ConnIdMapper::parse","MatrixConnector::map_connection_ids","MatrixConnector::cost","ConnIdMapper::left","ConnIdMapper::right"],"unwind":5,"fs":2048,"timeout":900,"stubs":["alloc::fmt::format"]}
+//@ c06_mapper_matrix_3x3 {"desc":"from_iter accepts exactly permutation pairs (0, duplicates, out-of-range rejected) and the matrix connector keeps cost(map r, map l) = cost(r, l)","bounds":"3 right ids x 3 left ids; all u16^2 x u16^2 mapping vectors","symbolic":"both mapping vectors (valid and invalid), all matrix cells","functions":["ConnIdMapper::from_iter","ConnIdMapper::parse","MatrixConnector::map_connection_ids","MatrixConnector::cost","ConnIdMapper::left","ConnIdMapper::right"],"unwind":11,"fs":2048,"timeout":900,"stubs":["alloc::fmt::format"]}
 #[cfg(kani)]
 #[kani::proof]
 #[kani::stub(alloc::fmt::format, stub_format)]
@@ -85,7 +85,7 @@ fn c06_mapper_matrix_3x3() {
     mapper_matrix(3, 3)
 }
 
-//@ c06_mapper_matrix_2x4 {"tier":"thorough","desc":"as c06_mapper_matrix_3x3 on a non-square matrix","bounds":"2 right ids x 4 left ids","symbolic":"mapping vectors, matrix cells","functions":["ConnIdMapper::from_iter","MatrixConnector::map_connection_ids","MatrixConnector::cost"],"unwind":6,"fs":2048,"timeout":1200,"stubs":["alloc::fmt::format"]}
+//@ c06_mapper_matrix_2x4 {"tier":"thorough","desc":"as c06_mapper_matrix_3x3 on a non-square matrix","bounds":"2 right ids x 4 left ids","symbolic":"mapping vectors, matrix cells","functions":["ConnIdMapper::from_iter","MatrixConnector::map_connection_ids","MatrixConnector::cost"],"unwind":10,"fs":2048,"timeout":1200,"stubs":["alloc::fmt::format"]}
 #[cfg(kani)]
 #[kani::proof]
 #[kani::stub(alloc::fmt::format, stub_format)]
@@ -125,7 +125,7 @@ fn snapshot_params(d: &Dictionary, out: &mut [WordParam; 8]) -> usize {
     k
 }
 
-//@ c06_dict_map_valid {"desc":"Dictionary::map_connection_ids_from_iter with any valid permutation pair: every system/user/unknown entry gets the mapped ids with unchanged cost, the connector answers cost(map r, map l) = cost(r,l) for every pair incl. id 0, the mapper is retained","bounds":"dictionary S6: system {a,ab}, user {b}, 3 unk entries, 3x3 matrix","symbolic":"both permutations, all params, matrix cells","functions":["Dictionary::map_connection_ids_from_iter","Lexicon::map_connection_ids","WordParams::map_connection_ids","UnkHandler::map_connection_ids","ConnectorWrapper::map_connection_ids","MatrixConnector::map_connection_ids"],"unwind":8,"fs":2048,"timeout":1200,"stubs":["alloc::fmt::format"]}
+//@ c06_dict_map_valid {"desc":"Dictionary::map_connection_ids_from_iter with any valid permutation pair: every system/user/unknown entry gets the mapped ids with unchanged cost, the connector answers cost(map r, map l) = cost(r,l) for every pair incl. id 0, the mapper is retained","bounds":"dictionary S6: system {a,ab}, user {b}, 3 unk entries, 3x3 matrix","symbolic":"both permutations, all params, matrix cells","functions":["Dictionary::map_connection_ids_from_iter","Lexicon::map_connection_ids","WordParams::map_connection_ids","UnkHandler::map_connection_ids","ConnectorWrapper::map_connection_ids","MatrixConnector::map_connection_ids"],"unwind":10,"fs":2048,"timeout":1200,"stubs":["alloc::fmt::format"]}
 #[cfg(kani)]
 #[kani::proof]
 #[kani::stub(alloc::fmt::format, stub_format)]
